@@ -153,9 +153,13 @@ def build_union(job: dict, positional: bool = False) -> tuple[Any, list[Any]]:
             frozen=True,
             namespace={"get_mapping": get_mapping},
         )
-        u = Annotated[u, dcls()]
-    if job.get("nullable"):
-        u = u | None if not prop else Union[u, None]
+        if job.get("nullable"):
+            # the generator's shape for a discriminated union that is itself nullable: Annotated[Union[A, B] | None, D()]
+            u = Annotated[Union[tuple(vts) + (type(None),)], dcls()]
+        else:
+            u = Annotated[u, dcls()]
+    elif job.get("nullable"):
+        u = u | None
     return u, vts
 
 
